@@ -119,11 +119,17 @@ func (f *BigFloat) SetElkFloat32(x Float32) *BigFloat {
 
 func (f *BigFloat) Hash() UInt64 {
 	d := xxhash.New()
-	bytes, err := f.AsGoBigFloat().GobEncode()
-	if err != nil {
-		panic(fmt.Sprintf("could not create a hash for big float: %s", err))
+	// Hash the value only, not the precision it is stored with:
+	// equal big floats of different precision must hash alike.
+	switch {
+	case f.IsNaN():
+		d.WriteString("NaN")
+	case f.AsGoBigFloat().Sign() == 0:
+		d.WriteString("0")
+	default:
+		// sign, hexadecimal mantissa without trailing zeros, binary exponent
+		d.WriteString(f.AsGoBigFloat().Text('p', 0))
 	}
-	d.Write(bytes)
 	return UInt64(d.Sum64())
 }
 
